@@ -40,21 +40,26 @@ TECHNIQUE = (
 )
 LEVEL_TEXT = (
     "Exploration: generated histories (Set-Cookie responses, clock advances, clears, save+load, queries) over an "
-    "11-host x 2-scheme x 5-path lattice are run through the real CookieJar; every history ends with a query of the "
+    "11-host x 2-scheme x 5-path lattice (plus the query-only host 0.0.1) are run through the real CookieJar; every history ends with a query of the "
     "whole lattice; every returned cookie is traced by its unique value to the Set-Cookie that created it and judged by "
     "an independent RFC 6265 store; the single-cookie sub-space is enumerated exhaustively. Says: held / violated on "
     "these histories; nothing about unexplored histories, other hosts or malformed cookie syntax."
 )
 RULE = (
-    "histories of 6-20 ops (set 1-3 Set-Cookie headers from a response URL | advance clock | clear | clear(predicate) | "
-    "clear_domain | save+load into a fresh jar | filter_cookies query) from a conservative Set-Cookie grammar (token "
-    "names, unique-id values, Domain/Path/Secure/Max-Age/Expires) over hosts {example.com, www., a.www., ftp., "
-    "ample.com, xexample.com, example.org, com, 127.0.0.1, [::1], localhost}, each followed by a sweep of all 110 lattice "
-    "URLs; strata: clean (history free of every structural trigger pattern of the listed findings, so any violation "
-    "there is unlisted by construction), free (unconstrained), same-name stress (one or two names, one host chain, many "
-    "expiries), single-cookie lattice (exhaustive), wire (ClientSession); a violation of a listed kind whose trigger "
-    "pattern is absent from its history gets the suffix ':without-known-trigger'; non-trivial = the reference stored a cookie and sent one in some query; distinct = distinct "
-    "(options, op list)"
+    "histories of 6-20 ops (set 1-3 Set-Cookie headers from a response URL, fed as ClientSession does via "
+    "update_cookies_from_headers or as a SimpleCookie built like ClientResponse.cookies | the same response again | "
+    "advance clock | clear | clear(predicate) | clear_domain | save+load into a fresh jar, sometimes with other options | "
+    "filter_cookies query) from a conservative Set-Cookie grammar (token names, unique-id values, Domain {none, self, "
+    "parent, TLD, child, sibling, look-alike suffix, IP, foreign; leading/trailing dot; 4% upper-case outside the clean "
+    "stratum}, Path, Secure, Max-Age {positive, 0, negative, garbage, huge}, Expires {future, now, past, garbage}, "
+    "attribute names in mixed case) over hosts {example.com, www., a.www., ftp., ample.com, xexample.com, example.org, "
+    "com, 127.0.0.1, [::1], localhost} x {http, https} x {/, /x, /x/, /x/y, /xy} (8% on port 8080), jar options unsafe / "
+    "treat_as_secure_origin; every history ends with a sweep of all 120 lattice URLs. Strata: clean (history free of "
+    "every structural trigger pattern of the listed findings: any violation there is unlisted by construction), free "
+    "(unconstrained), same-name stress (one or two names, one host chain, many expiries), single-cookie lattice (26 180 "
+    "jars, exhaustive), wire (ClientSession over MemConnector, Cookie header read by a scripted server). A violation of a "
+    "listed kind whose trigger pattern is absent from its history gets the suffix ':without-known-trigger'. non-trivial "
+    "= the reference stored a cookie and sent one in some query; distinct = distinct (options, op list)"
 )
 ASSUMPTIONS = [
     "RefCookie (vlib/refcookie.py) is a correct reading of RFC 6265 5.1-5.4 without a public-suffix list, with the "
@@ -95,7 +100,9 @@ HOSTS = [
 SCHEMES = ["http", "https"]
 PATHS = ["/", "/x", "/x/", "/x/y", "/xy"]
 NAMES = ["a", "b", "c", "sid"]
-SWEEP = [f"{s}://{h}{p}" for h in HOSTS for s in SCHEMES for p in PATHS]
+# the sweep also asks for "0.0.1", the dotted suffix of the IP host: not an IP address itself, so a cookie that a
+# response from 127.0.0.1 managed to set for Domain=0.0.1 (5.1.3: no suffix matching for IP hosts) would show there
+SWEEP = [f"{s}://{h}{p}" for h in HOSTS + ["0.0.1"] for s in SCHEMES for p in PATHS]
 SECURE_ORIGIN_CHOICES = [
     "http://example.com",
     "http://www.example.com",
@@ -511,7 +518,7 @@ def gen_history(rng: random.Random, stratum: str) -> dict:
 
 def single_cookie_cases():
     """The single-cookie sub-space, enumerated completely: response host x response path x Domain attribute x
-    Path attribute x Secure x unsafe (26 180 jars); each is followed by the sweep of all 110 lattice URLs."""
+    Path attribute x Secure x unsafe (26 180 jars); each is followed by the sweep of all 120 lattice URLs."""
     dom_choices = [None] + [bare(h) for h in HOSTS] + [".example.com", "example.com.", ".www.example.com", "le.com", "0.0.1"]
     path_choices = [None, "/", "/x", "/x/", "/x/y", "/xy", "x"]
     for host in HOSTS:
